@@ -237,7 +237,9 @@ func cmdCheck(args []string) {
 		cfg.Timeout = time.Duration(*timeoutF) * time.Second
 	}
 	os.RemoveAll(cfg.WorkDir)
-	rep.WorkDir = cfg.WorkDir
+	if !*keep {
+		rep.WorkDir = cfg.WorkDir
+	}
 	e.solveAll(obls, axioms, cfg)
 	if *tier == "thorough" {
 		// stability: re-prove under other seeds; an obligation must stay discharged
